@@ -604,9 +604,24 @@ def run_property(prop, tier, seed):
     codegen_s = 0.0
     fatal = None
     try:
-        ov.create(prop.MODULES, dump_body_all(), gen_src, getattr(prop, "ACCESS", None))
-        data = native_dump(ov, bool(getattr(prop, "DUMP", [])))
+        ov.create(prop.MODULES, dump_body_all() + getattr(prop, "DUMP_EXTRA_BODY", ""), gen_src, getattr(prop, "ACCESS", None))
+        data = native_dump(ov, bool(getattr(prop, "DUMP", [])) or hasattr(prop, "DUMP_EXTRA_BODY"))
         (ov.tree / "src" / "verif" / "dump.rs").write_text(dump_rs(data, getattr(prop, "DUMP", [])))
+        if hasattr(prop, "finalize"):
+            # jobs whose generated source / bounds depend on values computed natively from this tree
+            jobs = prop.finalize(jobs, data, tier, seed)
+            if only:
+                jobs = [j for j in jobs if re.search(only, j.harness)]
+            gen_src = "\n".join(j.gen for j in jobs if j.gen)
+            (ov.tree / "src" / "verif" / "gen.rs").write_text("// generated harness instances\n#![allow(unused_imports)]\nuse super::*;\n" + gen_src)
+        extra_results = prop.extra(data) if hasattr(prop, "extra") else []
+        for er in extra_results:
+            log(f"side query {er['name']}: {er['status']} {er.get('detail','')[:200]}")
+            if er["status"] == "failed":
+                rpath = VERIF / "replays" / f"{pid}-{er['name']}.json"
+                rpath.write_text(json.dumps({"property_id": pid, "side_query": er}, indent=1))
+                violations.append(({"harness": er["name"], "description": er.get("detail", ""), "case": er.get("case")}, rpath))
+        notes.extend(f"side query {er['name']}: {er['status']} - {er.get('detail','')}" for er in extra_results)
         names = []
         for j in jobs:
             j.module = j.module or ("gen" if j.gen else prop.MAIN)
@@ -793,6 +808,17 @@ def dump_body_all():
         j("Z_EP", &z::dump_ep(), &mut out);
         j("Z_NO_EP", &[z::dump_no_ep()], &mut out);
         j("Z_SIDE", &[z::dump_side()], &mut out);
+        {
+            let t = unsafe { crate::engine::eval::piece_square_tables::TABLES };
+            let mut mg: Vec<u64> = Vec::new();
+            let mut eg: Vec<u64> = Vec::new();
+            for p in 0..2 { for k in 0..6 { for s in 0..64 {
+                mg.push(t[p][k][s].midgame().0 as i64 as u64);
+                eg.push(t[p][k][s].endgame().0 as i64 as u64);
+            } } }
+            j("PST_MG", &mg, &mut out);
+            j("PST_EG", &eg, &mut out);
+        }
 '''
 
 
@@ -803,9 +829,12 @@ def _arr(vals, fmt="0x{:x}"):
 def dump_rs(data, keys):
     out = ["// generated: constants dumped from the real init() of this tree", "#![allow(dead_code)]"]
     for k in keys:
-        if k not in data:
+        if k == "PST":
+            if "PST_MG" not in data:
+                raise Inconclusive("dump key PST_MG not produced by the native dump")
+        elif k not in data:
             raise Inconclusive(f"dump key {k} not produced by the native dump")
-        v = data[k]
+        v = data.get(k)
         if k in ("ATTACKS", "ROOK_NOT_MASKS", "BISHOP_NOT_MASKS", "KNIGHT", "KING", "Z_EP", "ROOK_MAGICS", "BISHOP_MAGICS", "ROOK_OFFSETS", "BISHOP_OFFSETS"):
             out.append(f"pub const {k}: [u64; {len(v)}] = {_arr(v)};")
         elif k == "PAWN":
@@ -821,6 +850,19 @@ def dump_rs(data, keys):
             out.append(f"pub const Z_PIECE_SQUARE: [[[u64; 6]; 64]; 2] = [{', '.join(pl)}];")
         elif k == "Z_CASTLING":
             out.append(f"pub const Z_CASTLING: [[u64; 2]; 2] = [{_arr(v[:2])}, {_arr(v[2:])}];")
+        elif k == "PST":
+            mg, eg = data["PST_MG"], data["PST_EG"]
+            def sgn(x):
+                return x - (1 << 64) if x >= (1 << 63) else x
+            pl = []
+            for p in range(2):
+                ks = []
+                for kk in range(6):
+                    base = p * 384 + kk * 64
+                    ks.append("[" + ", ".join(f"PE::new({sgn(mg[base + s])}, {sgn(eg[base + s])})" for s in range(64)) + "]")
+                pl.append("[" + ", ".join(ks) + "]")
+            out.append("use crate::engine::eval::PhasedEval as PE;")
+            out.append(f"pub const PST: [[[PE; 64]; 6]; 2] = [{', '.join(pl)}];")
         elif k in ("Z_NO_EP", "Z_SIDE"):
             out.append(f"pub const {k}: u64 = 0x{v[0]:x};")
         else:
@@ -835,7 +877,7 @@ def replay_file(prop, path):
     rec = json.loads(Path(path).read_text())
     ov = Overlay(prop.ID + "-replay")
     try:
-        ov.create(prop.MODULES, dump_body_all(), rec.get("gen") or "", getattr(prop, "ACCESS", None))
+        ov.create(prop.MODULES, dump_body_all() + getattr(prop, "DUMP_EXTRA_BODY", ""), rec.get("gen") or "", getattr(prop, "ACCESS", None))
         (ov.tree / "src" / "verif" / "dump.rs").write_text(
             dump_rs(native_dump(ov, bool(getattr(prop, "DUMP", []))), getattr(prop, "DUMP", [])))
         rep_dev, case, tail = playback(ov, rec["module"], rec["harness"], rec["values"], release=False, tag="r")
